@@ -423,12 +423,13 @@ fn deep(ctx: &Ctx, rep: &mut Report) {
 fn jump_after_large_buffer(ctx: &Ctx, rep: &mut Report) {
     let prior: [usize; 7] = [0, 1, 8, 16, 17, 20, 33];
     let jumps: [usize; 8] = [0, 1, 15 * 1024, 16 * 1024 - 2048, 16 * 1024, 16 * 1024 + 2048, 28 * 1024, 60 * 1024];
-    let radices = [2u64, prior.len() as u64, jumps.len() as u64, 2, 2];
+    let deliveries: [usize; 4] = [1, 2, 3, 20];
+    let radices = [2u64, prior.len() as u64, jumps.len() as u64, 2, 2, deliveries.len() as u64];
     let n = product(&radices);
     ctx.family(
         rep,
         "jump-after-large-buffer",
-        "k in {0,1,8,16,17,20,33} in-order blocks of 1024/2048 bytes, then one block whose offset lies {0, 1 block, 15K, 14K, 16K, 18K, 28K, 60K} beyond the buffered data x more flag x payload {1 byte, full block}; budget 5000",
+        "k in {0,1,8,16,17,20,33} in-order blocks of 1024/2048 bytes, each delivered {1,2,3,20} times, then one block whose offset lies {0, 1 block, 15K, 14K, 16K, 18K, 28K, 60K} beyond the buffered data x more flag x payload {1 byte, full block}; budget 5000",
         n,
         true,
         |i, rep| {
@@ -441,7 +442,9 @@ fn jump_after_large_buffer(ctx: &Ctx, rep: &mut Report) {
             let plen = if d[4] == 0 { 1 } else { bs };
             let mut srv = Server::new(5000, Duration::from_secs(3600));
             let mk = |num: u32, more: bool, len: usize| Template { mtype: 0, method: 3, bloat: 0, b1: Blk::Val(num, more, szx), b2: Blk::None, payload: len, path: "big", ep: 1, size1: None, size2: None };
-            for j in 0..k {
+            let reps = deliveries[d[5] as usize];
+            for jj in 0..k * reps {
+                let j = jj / reps;
                 let t = mk(j as u32, true, bs);
                 let before = srv.snapshot();
                 let x = srv.exchange(1, &t.bytes(43_000), &|_c| app_reply(0));
@@ -460,7 +463,7 @@ fn jump_after_large_buffer(ctx: &Ctx, rep: &mut Report) {
             match judge(&t, &x, &before, &after) {
                 Ok(class) => {
                     rep.count(class);
-                    rep.bucket(&("jump", szx, k, jump_blocks, more, plen == 1, class));
+                    rep.bucket(&("jump", szx, k, jump_blocks, more, plen == 1, reps, class));
                 }
                 Err((sig, what)) => {
                     rep.count("violation");
@@ -469,7 +472,7 @@ fn jump_after_large_buffer(ctx: &Ctx, rep: &mut Report) {
                         i,
                         sig,
                         format!("after {} in-order blocks of {} bytes: {}", k, bs, what),
-                        t.json().set("prior_blocks", k).set("block_size", bs),
+                        t.json().set("prior_blocks", k).set("block_size", bs).set("deliveries_per_prior_block", reps),
                     ));
                 }
             }
